@@ -150,12 +150,18 @@ class Program(object):
                     "ORG after code would leave a gap: the program is assembled as one block from one origin",
                     statement
                 )
-            address = statement.set_address(address)
+            try:
+                address = statement.set_address(address)
+            except ValueTypeError:
+                raise TranslationError("Program does not fit below address $FFFF", statement)
             address += statement.code_pkg.size
             code_seen = code_seen or statement.code_pkg.size > 0
 
         for index, statement in enumerate(self.statements):
-            statement.fix_addresses(self.statements, index)
+            try:
+                statement.fix_addresses(self.statements, index)
+            except (ValueTypeError, ZeroDivisionError) as error:
+                raise TranslationError(str(error), statement)
             statement.fit_additional_to_size()
 
         # Update the symbol table with the proper addresses
